@@ -232,14 +232,15 @@ func corrC15(outDir string, seed uint64, tier string, replay string) *report {
 			continue
 		}
 		for k := 0; k <= 20; k++ {
-			for _, short := range []bool{false, true} {
+			for mode := 0; mode < 3; mode++ {
+				short := mode == 1
 				stream := r.bytes(64)
 				for i := range stream {
 					if stream[i] == 0 {
 						stream[i] = 0x5A // no zero bytes in the source: a zero-filled salt cannot be a genuine draw
 					}
 				}
-				fr := &faultReader{data: stream, failAfter: k, short: short}
+				fr := &faultReader{data: stream, failAfter: k, short: short, once: mode == 2}
 				crand.Reader = fr
 				var h string
 				var err error
@@ -271,7 +272,7 @@ func corrC15(outDir string, seed uint64, tier string, replay string) *report {
 					zeroes = strings.Contains(string(p.salt), "...")
 				}
 				if string(p.salt) != want && (zeroes || fr.failed) {
-					rep.fail(map[string]interface{}{"scheme": sc.name, "source": fmt.Sprintf("delivers %d bytes, then %s", k, map[bool]string{false: "fails", true: "returns short reads of one byte"}[short]), "hash": h},
+					rep.fail(map[string]interface{}{"scheme": sc.name, "source": fmt.Sprintf("delivers %d bytes, then %s", k, []string{"fails for good", "returns short reads of one byte", "fails once (after a partial read) and recovers"}[mode]), "hash": h},
 						"an error (or a salt made of the bytes the source delivered: "+want+")", "hash with salt "+string(p.salt)+" and a nil error",
 						"NewHash returns a hash whose salt is not made of random bytes when crypto/rand.Reader fails or delivers short reads")
 				}
@@ -442,11 +443,17 @@ type faultReader struct {
 	failAfter int
 	short     bool
 	failed    bool
+	once      bool // fail once (possibly after delivering part of the request), then recover
 }
 
 func (f *faultReader) Read(p []byte) (int, error) {
 	if len(p) == 0 {
 		return 0, nil
+	}
+	if f.once && f.failed && f.off < len(f.data) { // the fault was a one-off: the source has recovered
+		n := copy(p, f.data[f.off:])
+		f.off += n
+		return n, nil
 	}
 	if f.off >= f.failAfter {
 		if !f.short {
